@@ -77,9 +77,11 @@ reg("C16",
     gen=lambda seed, tier: (P.gen_roundtrip_programs(G.Rng(seed + 16), N(tier, 120, 1500), big=N(tier, 0.03, 0.08)) +
                             P.gen_coexist_programs(G.Rng(seed + 161), N(tier, 60, 600)) +
                             P.gen_commit_programs(G.Rng(seed + 162), N(tier, 60, 600), big=N(tier, 0.03, 0.1)) +
-                            P.gen_size_matrix(G.Rng(seed + 163))),
+                            P.gen_size_matrix(G.Rng(seed + 163)) +
+                            P.gen_history_programs(G.Rng(seed + 164), N(tier, 30, 300), maxlen=N(tier, 12, 30))),
     monitors=[lambda rr: (P.mon_size_matrix(rr) if "matrix" in rr.prog.tags else
                           P.mon_commit(rr) if "commit" in rr.prog.tags else
+                          P.mon_history(rr) if "steps" in rr.prog.tags and "keys" in rr.prog.tags else
                           P.mon_roundtrip(rr) + P.mon_coexist(rr)),
               lambda rr: mon_content_valid(rr)],
     nontrivial=lambda rr: has(rr, ("write", "write_hash", "wcommit"), ("ok",)),
@@ -87,12 +89,16 @@ reg("C16",
          "2-5 algorithms through mixed entry points: each address is the asked algorithm's digest whatever the cache holds, "
          "all copies read back, and remove_hash of one algorithm's copy leaves the others present and readable; plus the "
          "commit programs and the declared-size matrix of C08 (declared integrity of another algorithm, short / overlong "
-         "streams through the mapped writers): after every program every file in the content area hashes to its address")
+         "streams through the mapped writers): after every program every file in the content area hashes to its address; plus "
+         "histories re-writing a few values over a few keys (A, B, A again ...): every key resolves to the address of its "
+         "latest write")
 
 reg("C05",
     gen=lambda seed, tier: (P.gen_history_programs(G.Rng(seed + 5), N(tier, 60, 600), maxlen=N(tier, 14, 40)) +
-                            P.gen_bucket_programs(G.Rng(seed + 51), N(tier, 60, 600))),
-    monitors=[lambda rr: P.mon_bucket(rr) if "damage" in rr.prog.tags else P.mon_history(rr)],
+                            P.gen_bucket_programs(G.Rng(seed + 51), N(tier, 60, 600)) +
+                            P.gen_shared_removal_programs(G.Rng(seed + 52), N(tier, 20, 200))),
+    monitors=[lambda rr: (P.mon_bucket(rr) if "damage" in rr.prog.tags else
+                          P.mon_shared_removal(rr) if "removals" in rr.prog.tags else P.mon_history(rr))],
     nontrivial=lambda rr: has(rr, ("remove",), ("ok",)) and has(rr, ("write", "wcommit"), ("ok",)),
     rule="random histories of keyed writes (all entry points, mixed flavours) and removals over 2-5 keys and 3 values; "
          "after every step metadata+read of every key (and sometimes a listing) are judged by a dictionary model; "
